@@ -613,10 +613,11 @@ func (g *Gen) query(total bool) []interface{} {
 	}
 	if g.chance(winP) && (!total || sorted) {
 		if g.chance(0.7) {
-			bs = append(bs, []interface{}{"skip", []int{-1, 0, 1, 2, 3, 5, 50, 0, 1, 2, hugeBase + 1 + g.r.Intn(len(hugeArgs))}[g.r.Intn(11)]})
+			bs = append(bs, []interface{}{"skip", []int{-1, 0, 1, 2, 3, 5, 50, 0, 1, 2, hugeBase + 1 + g.r.Intn(len(hugeArgs)), -3, -1000}[g.r.Intn(13)]})
 		}
 		if g.chance(0.7) {
-			bs = append(bs, []interface{}{"limit", []int{-1, 0, 1, 2, 3, 10, 1, 2, hugeBase + 1 + g.r.Intn(len(hugeArgs)), hugeBase + 1 + g.r.Intn(len(hugeArgs))}[g.r.Intn(10)]})
+			// any negative limit means no limit, not only the -1 a fresh query carries
+			bs = append(bs, []interface{}{"limit", []int{-1, 0, 1, 2, 3, 10, 1, 2, hugeBase + 1 + g.r.Intn(len(hugeArgs)), hugeBase + 1 + g.r.Intn(len(hugeArgs)), -2, -7, -1000000}[g.r.Intn(13)]})
 		}
 		if g.chance(0.1) { // a later negative skip must be ignored
 			bs = append(bs, []interface{}{"skip", -2})
@@ -1172,6 +1173,15 @@ func (g *Gen) lifecycleSweep() []E {
 		g.idx[c] = map[string]bool{}
 		evs = append(evs, E{"op": "Insert", "c": c, "docs": mk(3)})
 		g.noteInsert(c, ids...)
+		if g.chance(0.5) {
+			// the new collection has no index: what the handle remembers of the old one's must not answer for it
+			for _, dir := range []int{1, -1} {
+				evs = append(evs, E{"op": "FindAll", "c": c, "q": []interface{}{[]interface{}{"sort", []interface{}{[]interface{}{B(f), dir}}}}})
+			}
+			evs = append(evs, E{"op": "Count", "c": c, "q": []interface{}{[]interface{}{"where", []interface{}{"un", "gte", B(f), []interface{}{"lit", ANum(g.smallN[0], "i")}}}}},
+				E{"op": "ListIndexes", "c": c},
+				E{"op": "Update", "c": c, "q": []interface{}{[]interface{}{"where", []interface{}{"un", "lte", B(f), []interface{}{"lit", ANum(g.smallN[len(g.smallN)-1], "i")}}}}, "upd": g.updateMap(), "audit": true})
+		}
 		evs = append(evs, E{"op": "CreateIndex", "c": c, "f": B(f)})
 		g.idx[c][f] = true
 	}
